@@ -1,10 +1,10 @@
 use nom::{
     branch::alt,
     bytes::complete::tag,
-    character::complete::char,
+    character::complete::{char, u64},
     combinator::{into, opt},
     multi::many0,
-    sequence::{separated_pair, terminated},
+    sequence::{pair, preceded, separated_pair, terminated},
 };
 
 use crate::{
@@ -88,10 +88,17 @@ pub fn choice(input: Input<'_>) -> ParserResult<'_, ASN1Type> {
                             |extension| vec![extension],
                         ),
                         terminated(
-                            in_brackets(in_brackets(many1(terminated(
-                                skip_ws_and_comments(choice_option),
-                                optional_comma,
-                            )))),
+                            in_brackets(in_brackets(preceded(
+                                // version number of the addition group
+                                opt(pair(
+                                    skip_ws_and_comments(u64),
+                                    skip_ws_and_comments(char(':')),
+                                )),
+                                many1(terminated(
+                                    skip_ws_and_comments(choice_option),
+                                    optional_comma,
+                                )),
+                            ))),
                             optional_comma,
                         ),
                     ))),
